@@ -308,8 +308,72 @@ def _caused_by_injected(e):
     return False
 
 
+def _run_reciprocal(c):
+    """The reciprocal target transformers have their own calling convention
+    (fit(X, y), transform(X, y) -> (X, y')): a small dedicated scenario."""
+    from mlinsights.mlmodel import FunctionReciprocalTransformer, PermutationReciprocalTransformer
+
+    ch = c.ch
+    which = ch.choice("w", ["permutation", "function"], "reciprocal")
+    n = ch.integer("w", 3, 20, "n")
+    seed = ch.subseed("w", "data")
+    rs = numpy.random.RandomState(seed)
+    X = rs.randn(n, 2)
+    seen = set()
+
+    def viol(oracle, detail, msg):
+        sig = (PROP, oracle, cls) + tuple(detail)
+        if sig not in seen:
+            seen.add(sig)
+            c.violation(PROP, oracle, sig, msg + " | scenario: " + repr(c.scenario))
+
+    if which == "permutation":
+        cls = "PermutationReciprocalTransformer"
+        est = PermutationReciprocalTransformer(random_state=ch.choice("w", [None, 0, 4], "rs"))
+        y = rs.randint(0, 3, n)
+    else:
+        cls = "FunctionReciprocalTransformer"
+        est = FunctionReciprocalTransformer(ch.choice("w", ["log", "exp", "log1p", "expm1", "log(1+x)", "exp(x)-1"], "fct"))
+        y = rs.rand(n) + 0.5
+    c.scenario = {"class": cls, "n": n, "data_seed": seed, "template": "reciprocal"}
+    c.signature = [cls, "reciprocal"]
+    c.entropy = E.Entropy("pinned")
+    c.fault_plan = None
+    numpy.random.seed(seed)
+    fp0 = U.param_fingerprint(est)
+    Xc, yc = X.copy(), y.copy()
+    history = ch.choice("w", ["fit", "fail,fit", "fit,transform,fit"], "history").split(",")
+    c.scenario["history"] = history
+    for op in history:
+        if op == "fail":
+            ok, r = U.sut(c, "fit(no targets)", est.fit, X, None)
+            if ok and cls == "PermutationReciprocalTransformer":
+                c.probe("invalid_data_accepted")
+            name = "failed-fit" if not ok else "fit"
+        elif op == "fit":
+            ok, r = U.sut(c, "fit", est.fit, X, y)
+            if not ok:
+                c.probe("fit_raised_on_generated_data:" + cls)
+                return
+            if r is not est:
+                viol("fit-returns-self", (), "fit returned %r instead of the estimator" % (type(r).__name__,))
+            name = "fit"
+        else:
+            ok, r = U.sut(c, "transform", est.transform, X, y)
+            name = "predict"
+        d = U.diff_fingerprint(fp0, U.param_fingerprint(est))
+        if d:
+            viol("params-changed", (d[0][0], "after:" + name), "get_params()[%r] changed from %r to %r after %s" % (d[0][0], d[0][1], d[0][2], op))
+        if not (numpy.array_equal(Xc, X) and numpy.array_equal(yc, y)):
+            viol("inputs-modified", ("after:" + name,), "the caller's X / y were modified by %s" % op)
+    c.nontrivial = True
+
+
 def run(c, index, tier):
     ch = c.ch
+    if ch.draw("w", 12, "reciprocal-branch") == 11:
+        _run_reciprocal(c)
+        return
     spec = ch.choice("w", R.SPECS, "spec")
     cfg = spec.draw(ch)
     data = spec.data(ch, "A")
